@@ -89,6 +89,10 @@ class _Pruner(ast.NodeTransformer):
         if _is_xp_ne_np(node.test) and node.orelse:
             self.pruned += 1
             return node.orelse
+        if _is_xp_ne_np(node.test) and not node.orelse:
+            # `if xp != np: <GPU work>; return ...` followed by the CPU code: the whole statement is the GPU arm
+            self.pruned += 1
+            return [ast.copy_location(ast.Pass(), node)]
         return node
 
 
